@@ -7,6 +7,7 @@
 package zzverif
 
 import (
+	"time"
 	"encoding/json"
 	"fmt"
 	"os"
@@ -125,6 +126,31 @@ func Assert(c bool, msg string) {
 	}
 }
 func Cover(label string)                 {}
+
+// MustFinishWithin / Finished bracket an operation that must terminate: under the engine a
+// feasible path that executes more than n SSA instructions in between is a violation (hang);
+// natively a watchdog reports a hang after 10 seconds.
+var finishedCh chan struct{}
+
+func MustFinishWithin(n int) {
+	ch := make(chan struct{})
+	finishedCh = ch
+	go func() {
+		select {
+		case <-ch:
+		case <-time.After(10 * time.Second):
+			fmt.Fprintln(os.Stdout, "VERIF-REPLAY-RESULT HANG: the operation did not return within 10 s")
+			os.Exit(1)
+		}
+	}()
+}
+
+func Finished() {
+	if finishedCh != nil {
+		close(finishedCh)
+		finishedCh = nil
+	}
+}
 func Note(label string)                  {}
 func Stub(target string, fn interface{}) {}
 
